@@ -66,7 +66,7 @@ def record_run(spec):
     def pe(last, this, dt):
         with ec.EighCapture() as cap:
             orig_pe(last, this, dt)
-        caps.append(cap.calls[0])
+        caps.append(ec.first_eigh(cap, "propagate_electronics"))
         mon["orth"] = max(mon["orth"], cap.worst_orth)
         mon["resid"] = max(mon["resid"], cap.worst_resid)
     t.propagate_electronics = pe
@@ -218,7 +218,7 @@ def record_afssh(spec):
         def f(last, this, *a):
             with ec.EighCapture() as cap:
                 orig(last, this, *a)
-            store.append(cap.calls[0])
+            store.append(ec.first_eigh(cap, getattr(orig, "__name__", "a moment/electronic propagation call")))
         return f
     t.advance_delR = capture(t.advance_delR, capR)
     t.advance_delP = capture(t.advance_delP, capP)
